@@ -30,6 +30,7 @@ type CtrSpec struct {
 	LimitCPU int    `json:"lcpu,omitempty"` // CPU limit (0 = none)
 	MemLimit int64  `json:"memlim,omitempty"`
 	MemReq   int64  `json:"memreq,omitempty"`
+	InitMems string `json:"initmems,omitempty"` // cpuset.mems the container arrives with (C12)
 	// absent optional sub-messages (C14)
 	NoLinux, NoResources, NoCPU, NoMemory bool `json:",omitempty"`
 }
@@ -217,6 +218,7 @@ func (rt *runtimeModel) linuxResources(pod *PodSpec, c *CtrSpec) *nri.LinuxResou
 			r.Cpu.Quota = nri.Int64(quotaOf(lim))
 			r.Cpu.Period = nri.UInt64(100000)
 		}
+		r.Cpu.Mems = c.InitMems
 	}
 	if !c.NoMemory {
 		if c.MemLimit > 0 {
